@@ -285,8 +285,8 @@ def drive(recipe):
     cur = layout_array(func, tag)
     for op in program(kind, prog, rng, L):
         name = op[0]
-        e = {"ev": name, "as": "", "exc": "", "off": False, "cx": False, "shape": [], "obs": [], "k": 0,
-             "g": [], "pv": False}
+        e = {"ev": name, "as": "", "exc": "", "off": False, "cx": False, "shape": [], "obs": [], "nzi": [],
+             "k": 0, "g": [], "pv": False}
         t["events"].append(e)
         out = None
         try:
@@ -344,6 +344,12 @@ def drive(recipe):
         else:
             vals = out.reshape(-1)
         e["obs"], e["off"] = flat(vals, e["cx"])
+        if name in ("Analysis", "AnalysisPP", "Complete"):
+            # lossless sparse encoding of a coefficient vector: entries that projected to exactly 0 are not listed
+            zero = [0] * (6 if e["cx"] else 3)
+            keep = [i for i, o in enumerate(e["obs"]) if o != zero]
+            e["nzi"] = [i + 1 for i in keep]
+            e["obs"] = [e["obs"][i] for i in keep]
     return t
 
 
@@ -364,7 +370,7 @@ def recipes_for(ctx):
             if kind == "cplx" and L == 0:
                 continue                               # L = 0 complex: nplm == nlm, the size test picks the real path
             order = native_order(L, kind)
-            for v in range(ndense):
+            for v in range(ndense if (L <= 16 or not ctx.quick) else 2):
                 spec = {"type": "dense", "seed": nxt(), "hi": 9}
                 g1 = {"type": "dense", "seed": nxt(), "hi": 5}
                 g2 = {"type": "dense", "seed": nxt(), "hi": 5}
@@ -396,7 +402,8 @@ def weight(r):
 
 
 def run(ctx, explain=False):
-    ctx.model_check("mc/MC_SHT.tla", MC_CFG % 4, name="MC_SHT(L<=4 vectors, L<=64 layouts/grid)", timeout=900)
+    lv = ctx.pick(3, 5)
+    ctx.model_check("mc/MC_SHT.tla", MC_CFG % lv, name="MC_SHT(L<=%d vectors, L<=64 layouts/grid)" % lv, timeout=1200)
     rs = recipes_for(ctx)
     order = sorted(range(len(rs)), key=lambda i: -weight(rs[i]))      # heavy first for load balance
     traces = pool_map(drive, [rs[i] for i in order], chunksize=1)
